@@ -24,6 +24,8 @@ pub fn dispatch(f: &[&str]) -> String {
         "cmp" => cmp_op(f[1], f[2], f[3]),
         "hash" => hash_op(f[1]),
         "from_float" => from_float(f[1], f[2], f[3]),
+        "fmt_roundtrip" => fmt_roundtrip(f[1], f[2]),
+        "parse" => parse_op(f[1], f[2]),
         "to_prim" => to_prim(f[1], f[2], f[3]),
         "to_bigint" => match p_dec(f[1]).to_bigint() { Some(v) => v.to_string(), None => "None".to_string() },
         "is_integer" => p_dec(f[1]).is_integer().to_string(),
@@ -244,5 +246,37 @@ fn from_float(ty: &str, entry: &str, bits: &str) -> String {
         ("f32", _) => match BigDecimal::from_f32(p_f32(bits)) { Some(d) => f_dec(&d), None => "Err".to_string() },
         ("f64", _) => match BigDecimal::from_f64(p_f64(bits)) { Some(d) => f_dec(&d), None => "Err".to_string() },
         _ => "UNKNOWN-FLOAT".to_string(),
+    }
+}
+
+fn fmt_roundtrip(func: &str, a: &str) -> String {
+    use std::str::FromStr;
+    let x = p_dec(a);
+    let text = match func {
+        "display" => format!("{}", x),
+        "display_ref" => format!("{}", x.to_ref()),
+        "lowerexp" => format!("{:e}", x),
+        "lowerexp_ref" => format!("{:e}", x.to_ref()),
+        "upperexp" => format!("{:E}", x),
+        "upperexp_ref" => format!("{:E}", x.to_ref()),
+        "to_scientific_notation" => x.to_scientific_notation(),
+        "to_engineering_notation" => x.to_engineering_notation(),
+        "to_plain_string" => x.to_plain_string(),
+        _ => return "UNKNOWN-FMT".to_string(),
+    };
+    let parsed = match BigDecimal::from_str(&text) { Ok(d) => f_dec(&d), Err(_) => "ERR".to_string() };
+    format!("{}\x1f{}", text, parsed)
+}
+
+fn parse_op(hex: &str, radix: &str) -> String {
+    let bytes: Vec<u8> = (0..hex.len() / 2).map(|i| u8::from_str_radix(&hex[2 * i..2 * i + 2], 16).unwrap()).collect();
+    let radix: u32 = radix.parse().unwrap();
+    match BigDecimal::parse_bytes(&bytes, radix) {
+        Some(d) => {
+            // from_str_radix must agree with parse_bytes on valid UTF-8
+            let s = std::str::from_utf8(&bytes).unwrap();
+            match <BigDecimal as num_traits::Num>::from_str_radix(s, radix) { Ok(d2) if d2 == d => f_dec(&d), _ => "DISAGREE".to_string() }
+        }
+        None => "Err".to_string(),
     }
 }
